@@ -148,6 +148,24 @@ theorem quorum_proof_check_iff (K : Bytes → Bytes) (vp : Bytes → Bytes → L
         ∃ w, rlpDecodeString v = some w ∧ List.replicate (32 - w.length) (0 : UInt8) ++ w = K extra :=
   verifyFromQuorumTx_ok_iff K vp rt ccmc proof extra
 
+/-- The whole quorum handler (message decoded first, then the proof check) accepts exactly when the message decodes and
+the proof facts hold against the supplied header's root; it returns the decoded message. -/
+theorem quorum_deposit_iff (K : Bytes → Bytes) (vp : Bytes → Bytes → List Bytes → VpRes) (rt ccmc : Bytes)
+    (proof : Option EthProof) (extra : Bytes) (param : TxParam) :
+    quorumMakeDeposit K vp rt ccmc proof extra = .ok param ↔
+      decodeTxParam extra = some param ∧ verifyFromQuorumTx K vp rt ccmc proof extra = .ok () := by
+  unfold quorumMakeDeposit
+  cases hd : decodeTxParam extra with
+  | none => simp
+  | some prm =>
+    cases hv : verifyFromQuorumTx K vp rt ccmc proof extra with
+    | error e => simp
+    | ok u =>
+      cases u
+      constructor
+      · intro h; cases h; exact ⟨rfl, rfl⟩
+      · rintro ⟨h, _⟩; cases h; rfl
+
 /-! ## Non-vacuity -/
 
 private def blkA : Hdr Nat Bytes := ⟨1, 0, 100, 5, [0xaa]⟩
